@@ -198,7 +198,17 @@ impl<'ctx> Ledger<'ctx> {
                 };
                 bal.add_amount(posting.account, delta.into_owned());
             }
-            bal.round(ctx);
+            // an up-to-date conversion follows: convert the holdings as they are,
+            // the converted amounts are rounded (to the target's precision) below.
+            if !matches!(
+                query.conversion,
+                Some(Conversion {
+                    strategy: ConversionStrategy::UpToDate { .. },
+                    ..
+                })
+            ) {
+                bal.round(ctx);
+            }
             Cow::Owned(bal)
         };
         match query.conversion {
